@@ -45,7 +45,7 @@ Qed.
 (** the checked constructor's assertion is compiled in every feature configuration -- default
     features, no default features, with and without the serde features *)
 Definition configurations : list (list string) :=
-  [cargo_default; []; (cargo_default ++ serde_features)%list; serde_features].
+  [cargo_default; []; (cargo_default ++ serde_features ++ cargo_serde)%list; (serde_features ++ cargo_serde)%list].
 
 Theorem C04_new_checked_in_every_configuration :
   forallb (new_checked new_cfg_guards) configurations = true.
